@@ -1,2 +1,290 @@
-/- C15 — theorems under construction -/
+/-
+C15 — serialising a program and loading it back gives the same program.
+
+Proved here: the heart of the matter for string values.  Whatever text a string value or metadata entry holds — quotes, backslashes
+before any character, control characters, any Unicode code point — the serializer's `quote()` writes a token that the lexer scans as
+one STRING token and decodes back to exactly that text (`quote_roundtrip`).  The statement for whole programs is decided by the
+round-trip oracle on the implementation and by the character-exact correspondence of `to_string()` with `Model/Serialize`.
+-/
 import MPilot.Model.Serialize
+import Mathlib.Tactic.Common
+import Mathlib.Tactic.IntervalCases
+
+namespace MPilot.C15
+open MPilot
+
+/-! ### scanning: the quoted text is one STRING token -/
+
+theorem scan_quote (cs rest acc : List Char) :
+    scanStringBody '"' (quoteChars cs ++ '"' :: rest) acc = some (acc.reverse ++ quoteChars cs, rest) := by
+  induction cs generalizing acc with
+  | nil => simp only [quoteChars, List.nil_append, List.append_nil]; unfold scanStringBody; simp
+  | cons c t ih =>
+    unfold quoteChars
+    by_cases h1 : c = '\\'
+    · subst h1
+      simp only [beq_self_eq_true, if_true, List.cons_append, List.nil_append]
+      unfold scanStringBody
+      simp only [show ('\\' == '"') = false by decide, Bool.false_eq_true, if_false, beq_self_eq_true, if_true,
+        show ('\\' == '\n') = false by decide]
+      rw [ih]; simp
+    · by_cases h2 : c = '"'
+      · subst h2
+        simp only [show ('"' == '\\') = false by decide, Bool.false_eq_true, if_false, beq_self_eq_true, if_true, List.cons_append, List.nil_append]
+        unfold scanStringBody
+        simp only [show ('\\' == '"') = false by decide, Bool.false_eq_true, if_false, beq_self_eq_true, if_true,
+          show ('"' == '\n') = false by decide]
+        rw [ih]; simp
+      · by_cases h3 : c = '\n'
+        · subst h3
+          simp only [show ('\n' == '\\') = false by decide, show ('\n' == '"') = false by decide, Bool.false_eq_true, if_false,
+            beq_self_eq_true, if_true, List.cons_append, List.nil_append]
+          unfold scanStringBody
+          simp only [show ('\\' == '"') = false by decide, Bool.false_eq_true, if_false, beq_self_eq_true, if_true,
+            show ('n' == '\n') = false by decide]
+          rw [ih]; simp
+        · by_cases h4 : c = '\r'
+          · subst h4
+            simp only [show ('\r' == '\\') = false by decide, show ('\r' == '"') = false by decide, show ('\r' == '\n') = false by decide,
+              Bool.false_eq_true, if_false, beq_self_eq_true, if_true, List.cons_append, List.nil_append]
+            unfold scanStringBody
+            simp only [show ('\\' == '"') = false by decide, Bool.false_eq_true, if_false, beq_self_eq_true, if_true,
+              show ('r' == '\n') = false by decide]
+            rw [ih]; simp
+          · by_cases h5 : c = '\t'
+            · subst h5
+              simp only [show ('\t' == '\\') = false by decide, show ('\t' == '"') = false by decide, show ('\t' == '\n') = false by decide,
+                show ('\t' == '\r') = false by decide, Bool.false_eq_true, if_false, beq_self_eq_true, if_true, List.cons_append, List.nil_append]
+              unfold scanStringBody
+              simp only [show ('\\' == '"') = false by decide, Bool.false_eq_true, if_false, beq_self_eq_true, if_true,
+                show ('t' == '\n') = false by decide]
+              rw [ih]; simp
+            · have e1 : (c == '\\') = false := by simpa using h1
+              have e2 : (c == '"') = false := by simpa using h2
+              have e3 : (c == '\n') = false := by simpa using h3
+              have e4 : (c == '\r') = false := by simpa using h4
+              have e5 : (c == '\t') = false := by simpa using h5
+              simp only [e1, e2, e3, e4, e5, Bool.false_eq_true, if_false, List.cons_append, List.nil_append]
+              unfold scanStringBody
+              simp only [e1, e2, Bool.false_eq_true, if_false]
+              rw [ih]; simp
+
+/-! ### decoding: the escapes written by `quote()` (and by `backslashreplace`) decode to the original characters -/
+
+theorem hexValue_hexDig (d : Nat) (h : d < 16) : hexValue? (hexDig d) = some d := by
+  interval_cases d <;> rfl
+
+theorem hexN4 (n : Nat) : hexN 4 n = [hexDig (n / 4096 % 16), hexDig (n / 256 % 16), hexDig (n / 16 % 16), hexDig (n % 16)] := by
+  simp [hexN, List.range, List.range.loop]
+
+theorem hexN8 (n : Nat) : hexN 8 n = [hexDig (n / 268435456 % 16), hexDig (n / 16777216 % 16), hexDig (n / 1048576 % 16), hexDig (n / 65536 % 16),
+    hexDig (n / 4096 % 16), hexDig (n / 256 % 16), hexDig (n / 16 % 16), hexDig (n % 16)] := by
+  simp [hexN, List.range, List.range.loop]
+
+theorem hexRun4 (n : Nat) (h : n < 65536) (r : List Char) : hexRun 4 (hexN 4 n ++ r) = some (n, r) := by
+  rw [hexN4]
+  simp only [hexRun, List.cons_append, List.nil_append, List.length_cons, List.take, List.drop, List.foldlM_cons, List.foldlM_nil,
+    hexValue_hexDig _ (Nat.mod_lt _ (by decide : 16 > 0)), Option.map_some, Option.bind_some, Option.pure_def, bind, Option.bind]
+  have : ¬ (r.length + 1 + 1 + 1 + 1 < 4) := by omega
+  simp only [this, if_false, Option.map_some, Option.some.injEq, Prod.mk.injEq, and_true]
+  omega
+
+theorem hexRun8 (n : Nat) (h : n < 4294967296) (r : List Char) : hexRun 8 (hexN 8 n ++ r) = some (n, r) := by
+  rw [hexN8]
+  simp only [hexRun, List.cons_append, List.nil_append, List.length_cons, List.take, List.drop, List.foldlM_cons, List.foldlM_nil,
+    hexValue_hexDig _ (Nat.mod_lt _ (by decide : 16 > 0)), Option.map_some, Option.bind_some, Option.pure_def, bind, Option.bind]
+  have : ¬ (r.length + 1 + 1 + 1 + 1 + 1 + 1 + 1 + 1 < 8) := by omega
+  simp only [this, if_false, Option.map_some, Option.some.injEq, Prod.mk.injEq, and_true]
+  omega
+
+theorem dec_plain (fuel : Nat) (c : Char) (r acc : List Char) (h : c ≠ '\\') :
+    decodeEscapes (fuel + 1) (c :: r) acc = decodeEscapes fuel r (c :: acc) := by
+  rw [decodeEscapes]
+  · intro hc; exact h hc
+
+theorem dec_bs_bs (fuel : Nat) (r acc : List Char) : decodeEscapes (fuel + 1) ('\\' :: '\\' :: r) acc = decodeEscapes fuel r ('\\' :: acc) := by
+  rw [decodeEscapes]
+theorem dec_bs_dq (fuel : Nat) (r acc : List Char) : decodeEscapes (fuel + 1) ('\\' :: '"' :: r) acc = decodeEscapes fuel r ('"' :: acc) := by
+  rw [decodeEscapes]
+theorem dec_bs_n (fuel : Nat) (r acc : List Char) : decodeEscapes (fuel + 1) ('\\' :: 'n' :: r) acc = decodeEscapes fuel r ('\n' :: acc) := by
+  rw [decodeEscapes]
+theorem dec_bs_r (fuel : Nat) (r acc : List Char) : decodeEscapes (fuel + 1) ('\\' :: 'r' :: r) acc = decodeEscapes fuel r ('\r' :: acc) := by
+  rw [decodeEscapes]
+theorem dec_bs_t (fuel : Nat) (r acc : List Char) : decodeEscapes (fuel + 1) ('\\' :: 't' :: r) acc = decodeEscapes fuel r ('\t' :: acc) := by
+  rw [decodeEscapes]
+
+theorem dec_bs_u (fuel : Nat) (r r' acc : List Char) (v : Nat) (h : hexRun 4 r = some (v, r')) (hs : ¬(0xD800 ≤ v ∧ v ≤ 0xDFFF)) :
+    decodeEscapes (fuel + 1) ('\\' :: 'u' :: r) acc = decodeEscapes fuel r' (Char.ofNat v :: acc) := by
+  rw [decodeEscapes]
+  simp only [h, hs, if_false]
+
+theorem dec_bs_U (fuel : Nat) (r r' acc : List Char) (v : Nat) (h : hexRun 8 r = some (v, r')) (hv : ¬ v > 0x10FFFF)
+    (hs : ¬(0xD800 ≤ v ∧ v ≤ 0xDFFF)) :
+    decodeEscapes (fuel + 1) ('\\' :: 'U' :: r) acc = decodeEscapes fuel r' (Char.ofNat v :: acc) := by
+  rw [decodeEscapes]
+  simp only [h, hv, hs, if_false]
+
+theorem char_not_surrogate (c : Char) : ¬(0xD800 ≤ c.toNat ∧ c.toNat ≤ 0xDFFF) := by
+  have := c.valid
+  unfold Char.toNat
+  rcases this with h | ⟨h1, h2⟩
+  · intro ⟨h3, _⟩; exact absurd h (by omega)
+  · intro ⟨_, h4⟩; omega
+
+theorem char_le_max (c : Char) : ¬ c.toNat > 0x10FFFF := by
+  have := c.valid
+  unfold Char.toNat
+  rcases this with h | ⟨h1, h2⟩ <;> omega
+
+theorem bsr_cons (c : Char) (t : List Char) : backslashReplace (c :: t) = backslashReplace [c] ++ backslashReplace t := by
+  simp [backslashReplace]
+
+theorem bsr_append (a b : List Char) : backslashReplace (a ++ b) = backslashReplace a ++ backslashReplace b := by
+  simp [backslashReplace]
+
+theorem bsr_ascii (c : Char) (h : c.toNat ≤ 255) : backslashReplace [c] = [c] := by
+  simp [backslashReplace, h]
+
+/-- **decoding inverts quoting**, for every text: escapes of backslash, quote, newline, carriage return and tab come back as those
+characters; every other character up to U+00FF passes through; every character above is written as `\\uXXXX` / `\\UXXXXXXXX` by
+the latin-1/backslashreplace step and decoded back to itself -/
+theorem decode_quote (cs : List Char) : ∀ (fuel : Nat) (acc : List Char), (backslashReplace (quoteChars cs)).length < fuel →
+    decodeEscapes fuel (backslashReplace (quoteChars cs)) acc = .ok (acc.reverse ++ cs) := by
+  induction cs with
+  | nil =>
+    intro fuel acc hf
+    cases fuel with
+    | zero => omega
+    | succ f => simp [quoteChars, backslashReplace, decodeEscapes]
+  | cons c t ih =>
+    intro fuel acc hf
+    cases fuel with
+    | zero => omega
+    | succ f =>
+      unfold quoteChars at hf ⊢
+      have two : ∀ (x y : Char), x.toNat ≤ 255 → y.toNat ≤ 255 →
+          backslashReplace ([x, y] ++ quoteChars t) = x :: y :: backslashReplace (quoteChars t) := by
+        intro x y hx hy
+        rw [bsr_append, show [x, y] = [x] ++ [y] by rfl, bsr_append, bsr_ascii x hx, bsr_ascii y hy]; rfl
+      by_cases h1 : c = '\\'
+      · subst h1
+        simp only [beq_self_eq_true, if_true] at hf ⊢
+        rw [two _ _ (by decide) (by decide)] at hf ⊢
+        rw [dec_bs_bs, ih f _ (by simp at hf ⊢; omega)]; simp
+      · by_cases h2 : c = '"'
+        · subst h2
+          simp only [show ('"' == '\\') = false by decide, Bool.false_eq_true, if_false, beq_self_eq_true, if_true] at hf ⊢
+          rw [two _ _ (by decide) (by decide)] at hf ⊢
+          rw [dec_bs_dq, ih f _ (by simp at hf ⊢; omega)]; simp
+        · by_cases h3 : c = '\n'
+          · subst h3
+            simp only [show ('\n' == '\\') = false by decide, show ('\n' == '"') = false by decide, Bool.false_eq_true, if_false,
+              beq_self_eq_true, if_true] at hf ⊢
+            rw [two _ _ (by decide) (by decide)] at hf ⊢
+            rw [dec_bs_n, ih f _ (by simp at hf ⊢; omega)]; simp
+          · by_cases h4 : c = '\r'
+            · subst h4
+              simp only [show ('\r' == '\\') = false by decide, show ('\r' == '"') = false by decide, show ('\r' == '\n') = false by decide,
+                Bool.false_eq_true, if_false, beq_self_eq_true, if_true] at hf ⊢
+              rw [two _ _ (by decide) (by decide)] at hf ⊢
+              rw [dec_bs_r, ih f _ (by simp at hf ⊢; omega)]; simp
+            · by_cases h5 : c = '\t'
+              · subst h5
+                simp only [show ('\t' == '\\') = false by decide, show ('\t' == '"') = false by decide, show ('\t' == '\n') = false by decide,
+                  show ('\t' == '\r') = false by decide, Bool.false_eq_true, if_false, beq_self_eq_true, if_true] at hf ⊢
+                rw [two _ _ (by decide) (by decide)] at hf ⊢
+                rw [dec_bs_t, ih f _ (by simp at hf ⊢; omega)]; simp
+              · have e1 : (c == '\\') = false := by simpa using h1
+                have e2 : (c == '"') = false := by simpa using h2
+                have e3 : (c == '\n') = false := by simpa using h3
+                have e4 : (c == '\r') = false := by simpa using h4
+                have e5 : (c == '\t') = false := by simpa using h5
+                simp only [e1, e2, e3, e4, e5, Bool.false_eq_true, if_false] at hf ⊢
+                rw [bsr_append] at hf ⊢
+                by_cases hl : c.toNat ≤ 255
+                · rw [bsr_ascii c hl] at hf ⊢
+                  simp only [List.cons_append, List.nil_append] at hf ⊢
+                  rw [dec_plain _ _ _ _ h1, ih f _ (by simp at hf ⊢; omega)]; simp
+                · by_cases hm : c.toNat ≤ 0xFFFF
+                  · have hb : backslashReplace [c] = '\\' :: 'u' :: hexN 4 c.toNat := by simp [backslashReplace, hl, hm]
+                    rw [hb] at hf ⊢
+                    simp only [List.cons_append] at hf ⊢
+                    rw [dec_bs_u f _ _ _ c.toNat (hexRun4 c.toNat (by omega) _) (char_not_surrogate c)]
+                    rw [ih f _ (by simp [hexN4] at hf ⊢; omega)]
+                    simp [Char.ofNat_toNat]
+                  · have hb : backslashReplace [c] = '\\' :: 'U' :: hexN 8 c.toNat := by simp [backslashReplace, hl, hm]
+                    rw [hb] at hf ⊢
+                    simp only [List.cons_append] at hf ⊢
+                    have hmax := char_le_max c
+                    rw [dec_bs_U f _ _ _ c.toNat (hexRun8 c.toNat (by omega) _) hmax (char_not_surrogate c)]
+                    rw [ih f _ (by simp [hexN8] at hf ⊢; omega)]
+                    simp [Char.ofNat_toNat]
+
+theorem optSign_q (l : List Char) : optSign ('"' :: l) = (false, '"' :: l) := by
+  unfold optSign
+  split
+  · rename_i h; injection h with h1 _; exact absurd h1 (by decide)
+  · rename_i h; injection h with h1 _; exact absurd h1 (by decide)
+  · rfl
+
+theorem span_q (l : List Char) : spanDigits ('"' :: l) = ([], '"' :: l) := by
+  simp [spanDigits, List.span, List.span.loop, isDig]
+
+theorem scanFloat_q (l : List Char) : scanFloat ('"' :: l) = none := by
+  unfold scanFloat
+  simp only [optSign_q, span_q]
+  simp
+
+theorem scanInt_q (l : List Char) : scanInt ('"' :: l) = none := by
+  unfold scanInt
+  simp only [optSign_q, span_q]
+  simp
+
+/-- **C15 (string values).**  The token `quote(s)` written by the serializer, followed by anything, is scanned as one STRING token whose
+value is exactly `s` and whose end is exactly where the closing quote was — for every string `s`. -/
+theorem quote_roundtrip (s : String) (rest : List Char) (line : Nat) :
+    scanOne ((quoteStr s).toList ++ rest) line =
+      .tok ⟨.string, .str s, line⟩ rest (line + countNewlines (quoteChars s.toList)) := by
+  have hq : (quoteStr s).toList = '"' :: (quoteChars s.toList ++ ['"']) := by
+    simp [quoteStr, String.toList_append]
+  rw [hq]
+  simp only [List.cons_append, List.append_assoc, List.singleton_append]
+  unfold scanOne
+  simp only [show isIdStart '"' = false by decide, Bool.false_eq_true, if_false, scanFloat_q, scanInt_q, beq_self_eq_true, Bool.true_or, if_true]
+  rw [scan_quote]
+  simp only [List.reverse_nil, List.nil_append]
+  unfold stringValue
+  rw [decode_quote _ _ [] (Nat.lt_succ_self _)]
+  simp
+
+/-- quoted text never contains a raw line break, so it does not move the line counter -/
+theorem quote_no_newlines (cs : List Char) : countNewlines (quoteChars cs) = 0 := by
+  induction cs with
+  | nil => rfl
+  | cons c t ih =>
+    unfold quoteChars
+    by_cases h1 : c = '\\'
+    · subst h1; simp [countNewlines, ih]
+    · by_cases h2 : c = '"'
+      · subst h2; simp [countNewlines, ih]
+      · by_cases h3 : c = '\n'
+        · subst h3; simp [countNewlines, ih]
+        · by_cases h4 : c = '\r'
+          · subst h4; simp [countNewlines, ih]
+          · by_cases h5 : c = '\t'
+            · subst h5; simp [countNewlines, ih]
+            · have e1 : (c == '\\') = false := by simpa using h1
+              have e2 : (c == '"') = false := by simpa using h2
+              have e3 : (c == '\n') = false := by simpa using h3
+              have e4 : (c == '\r') = false := by simpa using h4
+              have e5 : (c == '\t') = false := by simpa using h5
+              simp only [e1, e2, e3, e4, e5, Bool.false_eq_true, if_false, List.cons_append, List.nil_append]
+              unfold countNewlines
+              split
+              · rfl
+              · rename_i h; injection h with ha _; exact absurd ha h4
+              · rename_i h; injection h with ha _; exact absurd ha h4
+              · rename_i h; injection h with ha _; exact absurd ha h3
+              · rename_i h; injection h with _ hb; rw [← hb]; exact ih
+
+end MPilot.C15
